@@ -185,4 +185,9 @@ func init() {
 			What:   "real front half on skeleton xconv: a :conv naming a function generated from ANOTHER converter interface of the file (whose name sorts after the referring one) and one generated from the same interface are resolved, used and type-check; the file is accepted with one function per method",
 			Bounds: "skeleton xconv, 2 slot choices", Assumes: []string{aT, aSlots}})
 	}
+
+	for _, pr := range []string{"C02", "C10", "C04"} {
+		reg(&HarnessSpec{Prop: pr, Name: "G:more", What: whatG + " - corpus case more (embedded struct, identical anonymous struct, imported types through an import alias, unexported field with pointer- and value-receiver getters (getters win), :typecast to an imported named type, :stringer on and off, :case:off, :match none with explicit :map/:literal only, two converter interfaces, hooks of all four pointer/value operand shapes in return and arg style with pointer and value destinations)", Bounds: "8 generated functions", Assumes: []string{aG}})
+	}
+	reg(&HarnessSpec{Prop: "C13", Name: "G:more", What: "every corpus case is generated twice in fresh processes: exit status, diagnostics and output bytes must be identical (end-to-end validation of determinism on the corpus)", Bounds: "corpus, 2 runs per case", Assumes: []string{aG}})
 }
